@@ -573,6 +573,11 @@ def split_multiple_persons_names(names):
 
         # Escaped character.
         if char == "\\":
+            # An escape is (the start of) a regular, non-whitespace word character.
+            if step == NEXT_WORD and not bracelevel:
+                spans[-1].append(possible_end)
+                spans.append([pos - 1])
+            step = START_WHITESPACE
             try:
                 next(namesiter)
             # If we're at the end of the string, then the \ is just a \.
